@@ -470,6 +470,13 @@ func checkApply(inj inject.Injector, scopes []*mscope, op Op, desc string, class
 		}
 		legal = append(legal, l)
 	}
+	if len(op.In)%2 == 1 {
+		// the struct itself (not a pointer to it) first: nothing in it can be set,
+		// which is not an error - and must not be remembered against the type
+		if verr := inj.Apply(target.Elem().Interface()); verr != nil {
+			return evid.Fail("apply-by-value", "Apply of a struct value (no field is settable) failed: %v; %s", verr, desc)
+		}
+	}
 	err := inj.Apply(target.Interface())
 	if missing != "" {
 		if err == nil {
